@@ -92,6 +92,8 @@ def main(argv):
     out_lines = []          # VIOLATION / KNOWN-FINDING lines
     broken = []             # (kind, name, message)
     import rs2v
+    prepare_alt()
+    rs2v.set_out(COQ)
 
     # 1. regenerate the T1 tables from /repo
     gen_errs = rs2v.generate(getattr(mod, "GEN", []))
